@@ -1,6 +1,6 @@
 #!/bin/sh
 # usage: tools/confirm_seed.sh <ID> <a|b>   -- confirm a sub-agent's seeded change in its scratch worktree, then keep it under seeded/
-ID="$1"; X="$2"; WT=/tmp/wt/$ID; S=$WT/_seed/$X
+ID="$1"; X="$2"; WT=${WTROOT:-/tmp/wt}/$ID; S=$WT/_seed/$X
 [ -f "$S/patch.diff" ] || { echo "no seed $S"; exit 3; }
 cd "$WT" && git checkout -q -- . && git status --short | grep -v '^??' && { echo dirty; exit 3; }
 /venv/bin/python "$S/demo.py" >/tmp/cs.$$.clean 2>&1; RC_CLEAN=$?
